@@ -293,9 +293,14 @@ class Run(object):
         if not self.seams.rng_requests:
             # the sampler no longer draws from numpy.random.rand: the seam does not own its randomness
             self.probes["rng_not_intercepted"] += 1
-        samples, freqs = out
-        samples = np.asarray(samples)
-        freqs = np.asarray(freqs, dtype=float)
+        try:
+            samples, freqs = out
+            samples = np.asarray(samples)
+            freqs = np.asarray(freqs, dtype=float)
+            if samples.dtype.kind not in "biuf" or freqs.ndim != 1:
+                raise TypeError("samples %s / frequencies of shape %s" % (samples.dtype, freqs.shape))
+        except Exception as e:  # whatever came back is not (bit strings, frequencies)
+            self._fail("shape", {"returned": repr(type(out))[:80], "problem": repr(e)[:200]})
         self.log.add("out", arr_digest(samples), arr_digest(freqs))
         # ---- state unchanged
         now = M.Snapshot(self.state)
